@@ -108,9 +108,13 @@ func main() {
 		if rng.Chance(1, 6) {
 			q = gen.FieldQuery(rng)
 		}
-		if rng.Chance(1, 12) {
-			// patterns mixing escaped and real wildcards, both-open ranges, empty strings
-			q = gen.Pick(rng, []string{`a:b\*c*`, `a:x\?y?z`, `a:[* TO *]`, `f:"" AND g:h*`, `a:b\*c* OR d:/r\/e/`, `n:{* TO "*"}`})
+		if rng.Chance(1, 8) {
+			// patterns mixing escaped and real wildcards, both-open ranges, empty strings; the SAME term text in field and in
+			// value position, a bare `*` / `?` in every position (a change that interns or caches nodes by their text makes
+			// one query's tree depend on which queries were parsed before it)
+			q = gen.Pick(rng, []string{`a:b\*c*`, `a:x\?y?z`, `a:[* TO *]`, `f:"" AND g:h*`, `a:b\*c* OR d:/r\/e/`, `n:{* TO "*"}`,
+				`*:foo`, `*:*`, `a:*`, `a:[* TO 5]`, `*:[1 TO 2]`, `*:>5`, `* AND a:b`, `?:x`, `a:?`, `x:x`, `a:a AND b:a`, `a:(a OR b)`,
+				`1:1`, `a:1 AND 1:a`, `"a":"a"`, `a:"a"`, `/a/:/a/`, `a:/a/`})
 		}
 		// different goroutines must be able to parse with DIFFERENT default fields at the same time
 		df := ""
